@@ -32,7 +32,8 @@ def rec_drain(sims, net, rec, limit=4000):
             if a[0] == 'deliver':
                 try: origin = a[1].idx.get(json.loads(a[1].inbox[0][1])[0][0])
                 except Exception: origin = None
-                a[1].deliver(); rec.rec(sims, f'deliver {a[1].k - 1}' + (f' {origin}' if origin is not None else ''))
+                kind = 'p' if a[1].inbox[0][0] == SUPVISORS_PUBLICATION else 'n'
+                a[1].deliver(); rec.rec(sims, f'deliver {a[1].k - 1}' + (f' {origin} {kind}' if origin is not None else ''))
             else:
                 tgt = a[1].idx[a[2].status.identifier]
                 a[2].step(); rec.rec(sims, f'exec {a[1].k - 1} {tgt}')
